@@ -12,6 +12,7 @@ import SkVerif.Model.Params
 import SkVerif.Spec.Params
 import SkVerif.Lemmas.Params
 import SkVerif.Lemmas.ParamsTree
+import SkVerif.Lemmas.ParamsDeep
 namespace SkVerif.C04
 open SkVerif SkVerif.Params
 
@@ -209,6 +210,14 @@ theorem wf_setParams_getParams_id_meta (fuel i : Nat) (c : N) (f : Bool) (ps : P
       = .ok (.est i c (.viaMeta attr attr) f ps) :=
   Tree.set_get_roundtrip_meta fuel i c f ps attr items hk hs hclash
 
+/-- **set_params(\*\*get_params()) = identity at every nesting depth** (`deep=True`, the default), for every
+tree built the way real estimators are (`wfTree`: distinct parameter names, component lists of pairs with
+distinct names that clash with no parameter name, recursively) and any fuel ≥ its depth -/
+theorem wf_setParams_getParams_id_deep (fuel i : Nat) (c : N) (impl : Impl N) (f : Bool) (ps : PList N)
+    (hwf : wfTree (.est i c impl f ps) = true) (hfuel : depthVal (.est i c impl f ps) ≤ fuel) :
+    setVal fuel (.est i c impl f ps) (getVal true (.est i c impl f ps)) = .ok (.est i c impl f ps) :=
+  Deep.set_get_roundtrip_deep fuel i c impl f ps hwf hfuel
+
 /-- **a bare key writes that parameter and only it** -/
 theorem setParams_bare_writes_only_that_param (fuel i : Nat) (c : N) (f : Bool) (ps : PList N) (k : N) (v : Val N)
     (hk : ps.keys.Nodup) (hin : k ∈ ps.keys) :
@@ -347,6 +356,8 @@ example : (match setVal 9 pipe [([4, 2, 1], .atom 7)] with
 example : errOf (setVal 9 pipe [([9], .atom 7)]) = some .value := by evalTree
 example : errOf (setVal 9 pipe [([3, 9], .atom 7)]) = some .attr := by evalTree
 example : anyFitted pipe = true ∧ anyFitted (cloneVal pipe) = false := by evalTree
+example : wfTree pipe = true ∧ depthVal pipe = 4 := by
+  simp [pipe, detr, naive, wfTree, wfP, depthVal, depthP, hasDup, PList.keys, PList.lookup]
 example : checkNames (fun n => n == 99) [4, 5] [3] = .ok () ∧ checkNames (fun n => n == 99) [4, 4] [3] = .error .value ∧
     checkNames (fun n => n == 99) [3] [3] = .error .value ∧ checkNames (fun n => n == 99) [99] [3] = .error .value := by
   evalTree
